@@ -68,6 +68,9 @@ H("c09_length_decompress", "object.rs", {"C09": X}, ["object::Stream::decompress
 H("c09_decompress_bookkeeping", "object.rs", {"C09": Q}, ["object::Stream::decompress", "object::Stream::set_content"],
   "stream with Filter and DecodeParms, decoding stubbed to two fixed bytes: Filter and DecodeParms removed, content replaced, Length updated", timeout=900, mem_gb=12,
   stubs=LS + ["object::Stream::decompressed_content -> fixed two bytes (decompress()'s bookkeeping only)"])
+H("c09_lzw_early_change_param", "object.rs", {"C09": X}, ["object::Stream::decompress_lzw", "object::Stream::decompress_lzw_loop", "object::Stream::decompress_predictor"],
+  "LZW stage called directly, /EarlyChange integer 0 | 1 | null, all 3-byte inputs; weezl replaced by the tagged stub", timeout=900, mem_gb=10, stubs=LS)
+H("c09_stage_no_params", "object.rs", {"C09": X}, ["object::Stream::decompress_zlib", "object::Stream::decompress_lzw"], "Flate and LZW stages called directly without parameters, all 3-byte inputs", timeout=600, mem_gb=8)
 H("c09_compress_never_longer", "object.rs", {"C09": Q}, ["object::Stream::compress", "object::Stream::set_content"],
   "22-byte content, encoder stub output length arbitrary 0..=24: never longer, Length consistent, Filter set iff replaced", timeout=900, mem_gb=12, stubs=LS + ["flate2::write::ZlibEncoder -> output of arbitrary length"])
 H("c09_compress_prefiltered", "object.rs", {"C09": Q}, ["object::Stream::compress"], "22-byte content, stream already has a Filter: untouched", timeout=400, mem_gb=6, stubs=LS)
@@ -102,6 +105,13 @@ H("c01_xrefstm_entry_packing", "parser_aux.rs", {"C01": Q, "C03": Q, "C02": Q}, 
   "all (u8,u32,u16) entries packed [1 4 2] big-endian are read back by the reader's field decoder", timeout=400, mem_gb=4)
 H("c03_indirect_object_scalar", "writer.rs", {"C03": X, "C01": X}, ["writer::Writer::write_indirect_object", "writer::Writer::need_separator", "writer::Writer::need_end_separator", "writer::CountingWrite"],
   "all object numbers (u32), generations (u16), start offsets 0..=1000, object in {null, true, false, 7}: exact framing and xref entry (offset, generation)", timeout=1500, mem_gb=12)
+H("c01_hexstr_4", "writer.rs", WK, ["writer::Writer::write_string"], "all hex strings of 4 bytes", timeout=900, mem_gb=8)
+H("c03_xref_section_header", "writer.rs", {"C03": Q, "C01": Q}, ["xref::XrefSection::write_xref_section", "xref::XrefEntry::write_xref_entry"], "subsection with first id ANY u16 and two entries (in use, free): header line and 2 x 20 bytes", timeout=1800, mem_gb=8)
+H("c02_field_decoder_widths", "parser_aux.rs", {"C01": Q, "C03": Q}, ["parser_aux::read_big_endian_integer"], "widths 0, 1, 3 over all 4-byte data; reading past the end is an error", timeout=600, mem_gb=6)
+H("c03_binary_mark", "writer.rs", {"C03": Q, "C01": Q}, ["writer::Writer::write_binary_mark"], "all 4-byte marks: '%' + mark + LF iff every byte >= 128, otherwise an error and no output", timeout=600, mem_gb=6)
+for v, d in (("1_4", "{1,4} (gap of two ids)"), ("2", "{2} (gap before and after)"), ("1_2_3", "{1,2,3} (no gap, trailing gap)"), ("4", "{4} (gap of three ids)")):
+    H(f"c03_write_xref_ids_{v}", "writer.rs", {"C03": X}, ["writer::Writer::write_xref", "xref::XrefSection::write_xref_section", "xref::XrefEntry::write_xref_entry"],
+      f"in-use objects {d} among ids 1..=4, offsets 100*id+d with d symbolic 0..=9: a strict 7.5.4 table reader finds object 0 free and exactly these entries with their own offsets", timeout=1800, mem_gb=12)
 H("c03_write_xref_subsets4", "writer.rs", {"C03": X}, ["writer::Writer::write_xref"], "all 16 subsets of ids 1..=4", timeout=1800, mem_gb=12)
 H("c03_write_xref_gaps6", "writer.rs", {"C03": X}, ["writer::Writer::write_xref"], "selected subsets of ids 1..=6", timeout=1800, mem_gb=12)
 H("c03_xref_stream_rows", "writer.rs", {"C03": X}, ["writer::Writer::create_xref_steam"], "all 16 subsets of ids 1..=4", timeout=1800, mem_gb=12)
@@ -142,6 +152,7 @@ H("c16_reencode_winansi", "encodings.rs", {"C16": X}, ["encodings::string_to_byt
 for t in ("standard", "winansi"):
     H(f"c16_string_to_bytes_{t}_ascii", "encodings.rs", {"C16": X}, ["encodings::string_to_bytes"],
       f"{t}: every printable ASCII character encodes to one byte whose table cell is that character", timeout=1200, mem_gb=10)
+H("c16_encode_utf8", "encodings.rs", {"C16": Q}, ["encodings::encode_utf8"], "every scalar U+0080..U+07FF: BOM + UTF-8 bytes", timeout=600, mem_gb=6)
 H("c16_tables_no_surrogates", "encodings.rs", {"C16": Q, "C04": Q}, ["encodings::mappings::{STANDARD,MAC_ROMAN,MAC_EXPERT,WIN_ANSI,PDF_DOC}_ENCODING"],
   "5 tables x all 256 bytes: no cell is a UTF-16 surrogate (so bytes_to_string's expect cannot fire on any single byte)", timeout=300, mem_gb=4)
 H("c16_tables_published_rules", "encodings.rs", {"C16": Q}, ["encodings::mappings"], "all 256 bytes vs Annex D rules (printable ASCII, Latin-1 range)", timeout=300, mem_gb=4)
@@ -153,6 +164,7 @@ H("c05_pkcs5_roundtrip", "pkcs5.rs", {"C05": Q, "C06": Q}, ["encryption::pkcs5::
 H("c05_pkcs5_unpad_spec", "pkcs5.rs", {"C05": Q, "C06": Q}, ["encryption::pkcs5::Pkcs5::raw_unpad"], "all 16-byte blocks: accepted iff PKCS#5-well-formed", timeout=400, mem_gb=4)
 H("c06_rc4_key_vector", "rc4.rs", {"C05": Q, "C06": Q}, ["encryption::rc4::Rc4::new", "encryption::rc4::Rc4::encrypt", "encryption::rc4::Rc4::decrypt", "encryption::rc4::Rc4::apply_keystream"],
   "key 'Key' (published test vector), all 8-byte plaintexts: ciphertext = plaintext XOR published keystream; decrypt inverts encrypt", timeout=1200, mem_gb=12, fs_size=300)
+H("c06_rc4_long_stream", "rc4.rs", {"C06": X, "C05": X}, ["encryption::rc4::Rc4::new", "encryption::rc4::Rc4::apply_keystream"], "key 'Key', 262-byte stream (last 6 bytes symbolic): ciphertext bytes 250..262 equal the reference RC4 (index wrap-around after 255 bytes)", timeout=1500, mem_gb=12, fs_size=300)
 H("c06_rc4_ref_key40", "rc4.rs", {"C06": T, "C05": T}, ["encryption::rc4::Rc4::new", "encryption::rc4::Rc4::apply_keystream"], "one concrete 40-bit key, all 6-byte plaintexts vs an independent reference RC4", timeout=1200, mem_gb=10, fs_size=300)
 H("c06_rc4_ref_key128", "rc4.rs", {"C06": T, "C05": T}, ["encryption::rc4::Rc4::new", "encryption::rc4::Rc4::apply_keystream"], "one concrete 128-bit key, all 6-byte plaintexts vs an independent reference RC4", timeout=1200, mem_gb=10, fs_size=300)
 H("c06_rc4_ref_symkey1", "rc4.rs", {"C06": X}, ["encryption::rc4::Rc4::new"], "every 1-byte key", timeout=2700, mem_gb=16, fs_size=300)
@@ -165,8 +177,13 @@ for v, d in (("r2_pw5", "revision 2, 5-byte password"), ("r3_key40_pw0", "revisi
     H(f"c06_alg2_{v}", "algorithms.rs", {"C06": Q if v == "r2_pw5" else X}, A2,
       f"Algorithm 2, {d}: all passwords x all 32-byte O x all P x all 8-byte file ids: MD5 input, number of MD5 rounds (1+50) and truncations as the standard prescribes; MD5 replaced by the recording model",
       timeout=2400, mem_gb=12 if v == "r2_pw5" else 26, models=MD5M, stubs=["md-5 -> transparent recording hash model", "std::hash::RandomState::new -> fixed keys"] + LS)
+H("c06_alg1a_aes256_key", "crypt_filters.rs", {"C06": Q}, ["encryption::crypt_filters::Aes256CryptFilter::compute_key"], "Algorithm 1.A: all 32-byte keys, object numbers and generations: key used as is, no MD5", timeout=600, mem_gb=6, models=MD5M)
 H("c05_identity_filter", "crypt_filters.rs", {"C05": Q}, ["encryption::crypt_filters::IdentityCryptFilter"], "all 4-byte data, all 5-byte keys: encrypt and decrypt are the identity", timeout=300, mem_gb=4, models=MD5M)
 H("c05_rc4_filter_roundtrip", "crypt_filters.rs", {"C05": T}, ["encryption::crypt_filters::Rc4CryptFilter::encrypt", "encryption::crypt_filters::Rc4CryptFilter::decrypt"], "concrete 10-byte object key, all 6-byte data: decrypt(encrypt(x)) == x", timeout=1500, mem_gb=12, models=MD5M, fs_size=300)
+EO = ["encryption::encrypt_object", "encryption::decrypt_object", "encryption::EncryptionState::get_string_filter", "encryption::crypt_filters::Rc4CryptFilter"]
+H("c05_object_string_roundtrip", "encryption.rs", {"C05": X}, EO, "top-level string of 4 symbolic bytes, RC4 (V2/R3, concrete 40-bit file key), object (7,0): decrypt_object(encrypt_object(x)) == x", timeout=1500, mem_gb=12, fs_size=300)
+H("c05_object_integer_untouched", "encryption.rs", {"C05": Q}, EO, "all i64 integer objects: both directions leave them unchanged", timeout=600, mem_gb=8)
+H("c05_object_reference_untouched", "encryption.rs", {"C05": Q}, EO, "all references: both directions leave them unchanged", timeout=600, mem_gb=8)
 H("c06_permissions_p_value", "encryption.rs", {"C06": Q}, ["encryption::Permissions::p_value"], "all 2^64 bit patterns vs ISO 32000-1 Table 22 reserved bits", timeout=300, mem_gb=4)
 
 # =============================== C02 / C07 / C12 / C13 / C15: measured negative results ==========
